@@ -46,6 +46,16 @@ def search(tier, seed):
             if v in ("OK", "ERR"):
                 for x in ("0d0a", "2a2031204558495354530d0a", "78", "29"):
                     cases.append((h + x, impl, h))
+        # the same responses with one byte missing: whatever the verdict on such a buffer is, appending cannot change it
+        dels = []
+        for h in sents:
+            for k in range(0, len(h) - 4, 2):
+                dels.append(h[:k] + h[k + 2:])
+        dres = C.parse_stream("corpus", seed, 0, stdin="\n".join(dels) + "\n") if dels else []
+        for h, impl, _ in dres:
+            if verdict(impl) in ("OK", "ERR"):
+                for x in ("2a2031204558495354530d0a", "5d0d0a"):
+                    cases.append((h + x, impl, h))
         if cases:
             out = C.parse_stream("corpus", seed, 0, stdin="\n".join(c[0] for c in cases) + "\n")
             for (hc, want, h0), (_, got, _) in zip(cases, out):
